@@ -123,6 +123,10 @@ def run(ctx):
             X = np.vstack([X, near])
             n = len(X)
             cov.hit("near-duplicate-rows")
+        if cls == "ART1" and r.random() < 0.5:
+            # binary data need not arrive as float64: boolean masks and small integers are valid ART1 input
+            X = X.astype(r.choice([bool, np.int8, np.int64]))
+            cov.hit(f"art1-input-dtype:{X.dtype}")
         mode = r.choice(MODES)
         # modes that may lower the threshold are excluded from the size bound by the theorem (MT-, finding F20)
         use_reset = r.random() < 0.4
@@ -190,6 +194,23 @@ def run(ctx):
                 break
             cur = [np.asarray(w, dtype=float).copy() for w in m.W]
             monotone(ctx, cls, prev, cur, dict(rep, step=t), host)
+            # a category absorbs a sample only if it covers at least the fraction rho of it (the vigilance bound,
+            # recomputed from the weight before the step; match tracking other than MT- only raises the threshold)
+            if cls in ("ART1", "FuzzyART") and host in ("", "SimpleARTMAP/") and not (mode == "MT-" and (use_reset or host == "SimpleARTMAP/")):
+                try:
+                    lab = int(np.asarray(m.labels_)[-1])
+                except Exception:
+                    lab = -1
+                if 0 <= lab < len(prev) and len(cur) == len(prev):
+                    xf = np.asarray(X[t], dtype=float)
+                    wo = prev[lab][len(xf):] if cls == "ART1" else prev[lab]
+                    if xf.sum() > 0:
+                        Mv = np.minimum(xf, wo).sum() / xf.sum()
+                        if Mv < m.params["rho"] - 1e-12:
+                            ctx.issue("violation", f"{host}{cls}:absorbed-below-vigilance",
+                                      f"step {t}: category {lab} absorbed a sample of which it covers only {Mv:.4f} < rho = {m.params['rho']} "
+                                      f"(input dtype {np.asarray(X).dtype}, mode {mode})", dict(rep, step=t, input_dtype=str(np.asarray(X).dtype)))
+                        cov.hit("absorbed-sample-vigilance-checked")
             if len(cur) == len(prev) and t > 0:
                 absorbed = True
             prev = cur
